@@ -2,7 +2,7 @@
 the scripted delegate executor (`SpyExecutor`), spy futures, unique values / exceptions and
 the builder that turns a JSON layer list into a real more_executors stack.
 """
-from concurrent.futures import Executor, Future
+from concurrent.futures import CancelledError, Executor, Future
 
 from sim import core
 
@@ -40,7 +40,26 @@ class FalsyErr(ScriptedError):
         return 0
 
 
-ERR_CLASSES = {"ErrA": ErrA, "ErrB": ErrB, "ErrC": ErrC, "ScriptedError": ScriptedError, "FalsyErr": FalsyErr}
+class ErrStop(ScriptedError, StopIteration):
+    """user code raising StopIteration (e.g. next() on an exhausted iterator): just an exception"""
+
+
+class ErrCancelled(ScriptedError, CancelledError):
+    """a future that FAILED WITH a CancelledError (e.g. pool.submit(other_cancelled_future.result)):
+    failed, not cancelled"""
+
+
+class ErrAttr(ScriptedError, AttributeError):
+    pass
+
+
+class ErrKey(ScriptedError, KeyError):
+    pass
+
+
+ERR_CLASSES = {"ErrA": ErrA, "ErrB": ErrB, "ErrC": ErrC, "ScriptedError": ScriptedError, "FalsyErr": FalsyErr,
+               "ErrStop": ErrStop, "ErrCancelled": ErrCancelled, "ErrAttr": ErrAttr, "ErrKey": ErrKey}
+EXOTIC = ["ErrStop", "ErrCancelled", "ErrAttr", "ErrKey"]
 
 
 def sub_of(x):
